@@ -208,3 +208,46 @@ def evaluator_passes_nothing_through(ctx, prog, R):
                    what=f'Evaluator::eval returns an operand of `{"/".join(where)}` as the result of the operator without applying its kernel: '
                         'the row-wise value then depends on what the rest of the batch looks like')
     ctx.floor(R, n, 4, 'return sites of Evaluator::eval examined')
+
+
+ORDER_USERS = {   # who may order DataValues by the derived order (variant first, then payload), and why it is same-typed there
+    'planner::rules::expr::is_greater_than_or_equal': 'value_cmp: guarded by an equal-discriminant test (C01-R3)',
+    'planner::rules::expr::is_greater_than': 'value_cmp: guarded by an equal-discriminant test (C01-R3)',
+    'planner::rules::expr::is_less_than_or_equal': 'value_cmp: guarded by an equal-discriminant test (C01-R3)',
+    'planner::rules::expr::is_less_than': 'value_cmp: guarded by an equal-discriminant test (C01-R3)',
+    'executor::order::cmp': 'ORDER BY: two values of one key column',
+    'executor::top_n::cmp': 'TOP-N: two values of one key column',
+    'executor::merge_join::MergeJoinExecutor::<T>::execute': 'merge join keys: cast to one type per pair by the builder (C11-R8)',
+    'storage::secondary::merge_iterator::MergeIterator::compare_data': 'sort key of one column, across row-sets of one table',
+    '<storage::secondary::rowset::mem_rowset::ComparableDataValue as std::cmp::Ord>::cmp': 'memtable key of one column',
+    'storage::secondary::rowset::rowset_iterator::RowSetIterator::next_batch_inner': 'key-range mask; the cross-type case is the known finding C13-R3',
+}
+
+
+def datavalue_order_users(ctx, prog, R):
+    """C14-R15: the derived order of DataValue is a same-type order"""
+    import re
+    ctx.rule(R, 'DataValue derives PartialOrd / Ord: the variant decides before the payload (Int32(1) < Float64(0.5), Int32(1) != Int64(1)). '
+                'That is the SQL order only between two values of one type, so it may be used where the operands are same-typed by '
+                'construction - a frozen list of places, one reason each - and nowhere else; in particular not to FOLD a comparison of two '
+                'constants, which the evaluator would decide with the promoting `cmp!` kernels (`1 > 0.5`)')
+    n = 0
+    for b in prog.bodies.values():
+        if b.rec.get('derived'):
+            continue
+        for c in b.calls:
+            ga = c.t.get('gargs', [])
+            direct = re.search(r'<&?types::value::DataValue as std::cmp::(PartialOrd|Ord)>', c.res or '') is not None
+            generic = re.search(r'cmp::((PartialOrd|Ord)::(lt|le|gt|ge|cmp|partial_cmp|max|min|clamp)|max_by_key|min_by_key|max_by|min_by|max|min)$',
+                                c.fn or '') is not None and 'types::value::DataValue' in ' '.join(ga)
+            if not (direct or generic):
+                continue
+            n += 1
+            ok = b.root in ORDER_USERS
+            ctx.functions_analysed.add(b.name)
+            ctx.ob(R, f'{b.root}·orders-DataValues', ok,
+                   f'{b.name}: {c.fn} on {ga[:1]} at block {c.bb}' + (f' - {ORDER_USERS[b.root]}' if ok else ' - not a place where both operands are of one type by construction'),
+                   [site(b, c.bb)],
+                   what=f'{b.root} compares two DataValues with the derived (variant-first) order: for operands of different numeric types the answer '
+                        'is decided by the type tag, not by the numbers (`1 > 0.5` is false, `1 = cast(1 as bigint)` is false)')
+    ctx.floor(R, n, 8, 'ordering comparisons of DataValues')
